@@ -13,7 +13,9 @@ MODULES = ["TLVerif.Props.C38"]
 THEOREMS = ["TLVerif.Props.C38." + t for t in [
     "reach_iff_run", "finish_delivers_own", "response_goes_to_its_query", "cancel_returns_own",
     "completions_le_setups", "at_most_once", "completed_is_unregistered",
-    "inFlight_eq_sentCount", "inFlight_panic_unreachable", "no_panic", "early_response_panics",
+    "inFlight_eq_sentCount", "inFlight_panic_unreachable", "no_panic", "inFlight_eq_sentCount_trace", "no_panic_trace",
+    "unsent_never_written", "written_was_set_up", "request_written_at_most_once", "shutdown_closes_when_drained",
+    "early_response_panics",
     "no_panic_unguarded_fails", "qid_reuse_panics", "close_completes_all", "disconnect_completes_sent",
     "closed_rejects_setup", "request_written_only_when_pending", "panic_sites_modelled"]]
 
